@@ -115,7 +115,9 @@ def gen_case(rng, with_mailbox):
     rng.shuffle(modes)
     modes = modes[:rng.randint(2 if not with_mailbox else 4, len(modes))]
     if with_mailbox:
-        modes = [6, 2] + [m for m in modes if m in (0, 4)]
+        # (a CoE terminal may have inputs only, or outputs only: three
+        # sync managers)
+        modes = [6, 2] + rng.choice([[0, 4], [0, 4], [4, 0], [0], [4]])
     base = 0x1000
     for m in modes:
         size = rng.choice([0, 2, 6, 16, 48, 64, 128])
@@ -130,6 +132,10 @@ def gen_case(rng, with_mailbox):
     unaligned = rng.random() < 0.05
     tx, txe = gen_pdo_cat(rng, unaligned)
     rx, rxe = gen_pdo_cat(rng)
+    if with_mailbox and 0 not in modes:
+        tx, txe = b"", []
+    if with_mailbox and 4 not in modes:
+        rx, rxe = b"", []
     order = []
     if sms:
         order.append((41, smdata))
@@ -162,7 +168,8 @@ def gen_case(rng, with_mailbox):
                 long_busy=[rng.randint(0, 40), rng.choice(
                     [99, 100, 101, 150, 257, 400])]
                 if rng.random() < 0.08 else None,
-                with_mailbox=with_mailbox, busyseed=rng.getrandbits(16))
+                with_mailbox=with_mailbox, busyseed=rng.getrandbits(16),
+                tail=rng.choice(["erased", "erased", "zeros", "old"]))
 
 
 def image(case):
@@ -174,7 +181,15 @@ def image(case):
         if len(d) % 2:
             d += b"\0"
         img += struct.pack("<HH", t, len(d) // 2) + d
-    img += b"\xff\xff\xff\xff" + b"\xff" * 16
+    # behind the end marker: erased EEPROM, zero padding of a programming
+    # tool, or the tail of an older, longer description
+    tail = case.get("tail", "erased")
+    trng = random.Random(case["busyseed"] ^ 0x7a11)
+    img += b"\xff\xff" + {
+        "erased": b"\xff\xff",
+        "zeros": bytes(2 + 2 * trng.randint(0, 30)),
+        "old": bytes(trng.getrandbits(8) for _ in range(
+            2 + 2 * trng.randint(0, 30)))}[tail] + b"\xff" * 16
     return bytes(img)
 
 
